@@ -98,3 +98,133 @@ package object
 //gvc:  sink Writer requires gate: forall(a, 0, len(t.Entries), spec_tree_mode(t.Entries[a].Mode) && len(t.Entries[a].Name) > 0 && forall(b, 0, a, strid(t.Entries[a].Name) != strid(t.Entries[b].Name)))
 //gvc:  sink Writer requires order: forall(a, 1, len(t.Entries), !strgt(spec_sortname(strid(t.Entries[a - 1].Name), t.Entries[a - 1].Mode), spec_sortname(strid(t.Entries[a].Name), t.Entries[a].Mode)))
 //gvc:end
+
+// ---- History walkers (property C43: each commit is yielded once).
+// Every walker keeps the set of commits it has yielded (seen) and, for the
+// pre-order, breadth-first and committer-time walkers, a caller-supplied set
+// of commits to leave out (seenExternal). The local contract is the same for
+// all of them: a commit is returned only if it was in neither set, it is in
+// seen afterwards, and seen only grows -- so no commit is yielded twice by
+// one walker, for every history. That every reachable commit is yielded, the
+// order of the walk and agreement with git rev-list are not decided here.
+//gvc:func (*commitPreIterator).Next
+//gvc:  props C43
+//gvc:  theory int
+//gvc:  opt coarse
+//gvc:  opt frame args
+//gvc:  results c err
+//gvc:  loop 1 invariant same: forall(k, w.seen[k] == old(w.seen[k]))
+//gvc:  loop 1 invariant sameext: forall(k, w.seenExternal[k] == old(w.seenExternal[k]))
+//gvc:  ensures once: err == nil ==> forall(k, k == keyid(c.Hash) ==> !old(w.seen[k]) && !old(w.seenExternal[k]))
+//gvc:  ensures marked: err == nil ==> w.seen[c.Hash]
+//gvc:  ensures grows: forall(k, old(w.seen[k]) ==> w.seen[k])
+//gvc:end
+
+//gvc:func (*Commit).NumParents
+//gvc:  props C43
+//gvc:  theory int
+//gvc:  ensures count: result == len(c.ParentHashes)
+//gvc:end
+
+// filteredParentIter only reads the seen set.
+//gvc:func filteredParentIter
+//gvc:  props C43
+//gvc:  theory int
+//gvc:  opt coarse
+//gvc:  opt frame args
+//gvc:  ensures kept: forall(k, seen[k] == old(seen[k]))
+//gvc:end
+
+//gvc:func (*commitPostIterator).Next
+//gvc:  props C43
+//gvc:  theory int
+//gvc:  opt coarse
+//gvc:  opt frame args
+//gvc:  results c err
+//gvc:  loop 1 invariant same: forall(k, w.seen[k] == old(w.seen[k]))
+//gvc:  ensures once: c != nil ==> forall(k, k == keyid(c.Hash) ==> !old(w.seen[k]))
+//gvc:  ensures marked: c != nil ==> w.seen[c.Hash]
+//gvc:  ensures grows: forall(k, old(w.seen[k]) ==> w.seen[k])
+//gvc:end
+
+//gvc:func (*commitPostIteratorFirstParent).Next
+//gvc:  props C43
+//gvc:  theory int
+//gvc:  opt coarse
+//gvc:  opt frame args
+//gvc:  results c err
+//gvc:  loop 1 invariant same: forall(k, w.seen[k] == old(w.seen[k]))
+//gvc:  ensures once: c != nil ==> forall(k, k == keyid(c.Hash) ==> !old(w.seen[k]))
+//gvc:  ensures marked: c != nil ==> w.seen[c.Hash]
+//gvc:  ensures grows: forall(k, old(w.seen[k]) ==> w.seen[k])
+//gvc:end
+
+// appendHash only reads the two sets.
+//gvc:func (*bfsCommitIterator).appendHash
+//gvc:  props C43
+//gvc:  theory int
+//gvc:  opt coarse
+//gvc:  opt frame args
+//gvc:  modifies w.queue
+//gvc:  ensures kept: forall(k, w.seen[k] == old(w.seen[k])) && forall(k, w.seenExternal[k] == old(w.seenExternal[k]))
+//gvc:  ensures sets: w.seen == old(w.seen) && w.seenExternal == old(w.seenExternal)
+//gvc:end
+
+//gvc:func (*bfsCommitIterator).Next
+//gvc:  props C43
+//gvc:  theory int
+//gvc:  opt coarse
+//gvc:  opt frame args
+//gvc:  results c err
+//gvc:  loop 1 invariant same: forall(k, w.seen[k] == old(w.seen[k]))
+//gvc:  loop 1 invariant sameext: forall(k, w.seenExternal[k] == old(w.seenExternal[k]))
+//gvc:  ensures once: err == nil ==> forall(k, k == keyid(c.Hash) ==> !old(w.seen[k]) && !old(w.seenExternal[k]))
+//gvc:  ensures marked: err == nil ==> w.seen[c.Hash]
+//gvc:  ensures grows: forall(k, old(w.seen[k]) ==> w.seen[k])
+//gvc:end
+
+//gvc:func (*commitIteratorByCTime).Next
+//gvc:  props C43
+//gvc:  theory int
+//gvc:  opt coarse
+//gvc:  opt frame args
+//gvc:  results out err
+//gvc:  loop 1 invariant same: forall(k, w.seen[k] == old(w.seen[k]))
+//gvc:  loop 1 invariant sameext: forall(k, w.seenExternal[k] == old(w.seenExternal[k]))
+//gvc:  ensures once: err == nil ==> forall(k, k == keyid(out.Hash) ==> !old(w.seen[k]) && !old(w.seenExternal[k]))
+//gvc:  ensures marked: err == nil ==> w.seen[out.Hash]
+//gvc:  ensures grows: forall(k, old(w.seen[k]) ==> w.seen[k])
+//gvc:end
+
+// GetCommit returns a newly decoded Commit (DecodeCommit allocates it) and
+// writes nothing the walkers look at. Trusted.
+//gvc:func GetCommit
+//gvc:  trusted
+//gvc:  opt fresh_result
+//gvc:  results c err
+//gvc:end
+
+// Parents builds an iterator over the parent ids; the commit is only read.
+//gvc:func (*Commit).Parents
+//gvc:  props C43
+//gvc:  theory int
+//gvc:  opt coarse
+//gvc:  opt frame args
+//gvc:  ensures kept: keyid(c.Hash) == old(keyid(c.Hash))
+//gvc:end
+
+// The limit filter (property C43: time and tail limits select the same
+// commits as git): a commit is handed on only if its committer time is not
+// before Since and not after Until; the source's errors are passed through;
+// the commit named by TailHash is handed on together with ErrStop.
+//gvc:func (*commitLimitIter).Next
+//gvc:  props C43
+//gvc:  theory int
+//gvc:  opt coarse
+//gvc:  opt frame args
+//gvc:  results out err
+//gvc:  ensures since: out != nil && c.limitOptions.Since != nil ==> !spec_time_before(out.Committer.When.wall, out.Committer.When.ext, c.limitOptions.Since.wall, c.limitOptions.Since.ext)
+//gvc:  ensures until: out != nil && c.limitOptions.Until != nil ==> !spec_time_before(c.limitOptions.Until.wall, c.limitOptions.Until.ext, out.Committer.When.wall, out.Committer.When.ext)
+//gvc:  ensures source: out != nil ==> calls("Next") >= 1 && lastres("Next") == nil
+//gvc:  ensures tail: err == nil && out != nil ==> out.Hash != c.limitOptions.TailHash
+//gvc:end
